@@ -86,6 +86,11 @@ def main():
         shutil.copy(patch, dst)
         shutil.copy(demo, dst)
       meta = {}
+      if not os.path.exists(os.path.join(seed, 'meta.json')) and os.path.exists(os.path.join(seed, 'notes.json')):
+        try:
+          meta = json.load(open(os.path.join(seed, 'notes.json')))
+        except Exception:
+          meta = {}
       if os.path.exists(os.path.join(seed, 'meta.json')):
         try:
           meta = json.load(open(os.path.join(seed, 'meta.json')))
